@@ -63,7 +63,8 @@ class _Handler(BaseHTTPRequestHandler):
         srv.requests.append({'path': self.path,
                              'ctype': self.headers.get('content-type'),
                              'body': body})
-        status, data, ctype = srv.next_reply
+        status, data, ctype = getattr(srv, 'reply_by_path', {}).get(
+            self.path) or srv.next_reply
         self.send_response(status)
         if status != 204:
             self.send_header('Content-Type', ctype)
@@ -379,7 +380,85 @@ def _history_case(ctx, case):
         ctx.nt(repr(case))
 
 
-COMPONENTS = {'history': history_case}
+def overlap_case(ctx, case):
+    """Two operations overlapping in time (two connections logging in with
+    one shared token, or two tokens used by two threads): operation A is
+    suspended at its k-th line inside the library, B runs to completion, A
+    resumes.  The requests posted, the results and the stored state must be
+    what each operation produces alone.  case {a: [op, args..], b: [...],
+    same_token: bool, k}; with one shared token only operations that do not
+    store anything (join, validate, invalidate)."""
+    from minecraft import authentication as A
+    from vlib.budget import run_interleaved
+    srv = stand_in()
+    ctx.ev()
+    srv.reply_by_path = {
+        '/authenticate': (200,) + body_for('valid', 'authenticate', 9)[:2],
+        '/refresh': (200,) + body_for('valid', 'refresh', 9)[:2],
+        '/validate': (204, b'', 'text/plain'),
+        '/invalidate': (204, b'', 'text/plain'),
+        '/session/minecraft/join': (204, b'', 'text/plain')}
+
+    def token(tag):
+        t = A.AuthenticationToken(username='user' + tag,
+                                  access_token='acc' + tag,
+                                  client_token='cli' + tag)
+        t.profile.id_ = 'pid' + tag
+        t.profile.name = 'Name' + tag
+        return t
+
+    def call(tok, op):
+        name = op[0]
+        if name == 'join':
+            return lambda: tok.join(op[1])
+        if name == 'authenticate':
+            return lambda: tok.authenticate(op[1], op[2])
+        return getattr(tok, name)
+
+    def body_of(r):
+        try:
+            return json.loads(r['body'].decode('utf-8'))
+        except ValueError:
+            return r['body']
+    try:
+        alone = []
+        for tag, op in (('A', case['a']), ('B', case['b'])):
+            t = token('A' if case['same_token'] else tag)
+            del srv.requests[:]
+            res = call(t, op)()
+            alone.append((res, [(r['path'], body_of(r))
+                                for r in srv.requests], snapshot(t)))
+        ta = token('A')
+        tb = ta if case['same_token'] else token('B')
+        del srv.requests[:]
+        ra, rb, ran = run_interleaved(call(ta, case['a']),
+                                      call(tb, case['b']), case['k'])
+        reqs = [(r['path'], body_of(r)) for r in srv.requests]
+    except Exception as e:
+        ctx.fail('overlap', 'Y-overlapping-operations-raise', case, exc=e)
+        return
+    finally:
+        srv.reply_by_path = {}
+    if not ran:
+        ctx.label('overlap_point_beyond_call')
+        return
+    want_reqs = alone[0][1] + alone[1][1]
+    key = lambda r: json.dumps(r, sort_keys=True, default=repr)   # noqa
+    if sorted(map(key, reqs)) != sorted(map(key, want_reqs)):
+        ctx.fail('overlap', 'Y2-payload', case, reqs, want_reqs)
+        return
+    if (ra, rb) != (alone[0][0], alone[1][0]) or \
+            snapshot(ta) != alone[0][2] or \
+            (not case['same_token'] and snapshot(tb) != alone[1][2]):
+        ctx.fail('overlap', 'Y3-stored-fields', case,
+                 (ra, rb, snapshot(ta), snapshot(tb)),
+                 (alone[0][0], alone[1][0], alone[0][2], alone[1][2]))
+        return
+    ctx.nt('overlap', repr(case))
+    ctx.label('overlap')
+
+
+COMPONENTS = {'history': history_case, 'overlap': overlap_case}
 
 
 def op_strategy():
@@ -434,6 +513,31 @@ def t_subsets(ctx, lo, hi):
                         'reply classes (single step)')
 
 
+def t_overlap(ctx):
+    ro = [['join', 'hashA'], ['join', '-5f3a'], ['validate'], ['invalidate']]
+    rw = ro + [['refresh'], ['authenticate', 'bob', 'pw']]
+    for same in (True, False):
+        ops = ro if same else rw
+        for a in ops:
+            for b in ops:
+                if a == b and a[0] != 'join':
+                    continue
+                if a[0] == 'join' and b[0] == 'join' and a == b:
+                    b = ['join', 'other-' + a[1]]
+                for k in range(1, 80):
+                    before = ctx.labels.get('overlap_point_beyond_call', 0)
+                    overlap_case(ctx, {'a': a, 'b': b, 'same_token': same,
+                                       'k': k})
+                    if ctx.labels.get('overlap_point_beyond_call',
+                                      0) > before:
+                        break
+    ctx.sample({'a': ['join', 'hashA'], 'b': ['join', 'other-hashA'],
+                'same_token': True, 'k': 5}, 'overlap')
+    ctx.exhaustive_done('overlapping operations: every line of A as the '
+                        'suspension point, shared token (read-only '
+                        'operations) and two tokens (all operations)')
+
+
 def t_random(ctx, n):
     strat = st.fixed_dictionaries({
         'initial': st.lists(st.booleans(), min_size=5, max_size=5),
@@ -448,7 +552,7 @@ def t_random(ctx, n):
 
 def tasks(tier):
     q = tier == 'quick'
-    tl = []
+    tl = [('overlap', t_overlap, {})]
     for i in range(4):
         tl.append(('subsets_%d' % i, t_subsets, dict(lo=8 * i, hi=8 * i + 8)))
     for i in range(8 if q else 14):
